@@ -500,6 +500,83 @@ fn semantic_violation(case: &Case, vals: &[Option<F>], types: &[String]) -> Opti
     None
 }
 
+/// After a fault has been written, recompute the cells an honest prover would derive from the
+/// faulted ones: the output cell of every arithmetic row of the operation under test (column 4
+/// when its coefficient is -1, else column 0 when its coefficient is -1 and the row has no
+/// product term), a few passes, chains bottom-up. Emulates "deviate at a hint, then follow the
+/// protocol" at table level. Returns the cells it overwrote with their previous values.
+fn repair(
+    prover: &mut MockProver<F>,
+    rec: &Rec,
+    classes: &mut Classes,
+    first_region: usize,
+    frozen: &[(usize, usize)],
+) -> Vec<((usize, usize), CellValue<F>)> {
+    use ff::Field;
+    let canon = rec.canon();
+    let mut saved = vec![];
+    let mut rows: Vec<usize> = vec![];
+    for (k, r) in rec.regions.iter().enumerate() {
+        if k < first_region || r.name == "pow2range table" {
+            continue;
+        }
+        for e in &r.events {
+            if let crate::rec::Ev::Sel(0, row) = e {
+                rows.push(*row);
+            }
+        }
+    }
+    rows.sort();
+    rows.dedup();
+    let fx = |c: usize, row: usize| rec.fixed.get(&(c, row)).copied().unwrap_or(F::ZERO);
+    for pass in 0..3 {
+        let order: Vec<usize> = if pass % 2 == 0 { rows.iter().rev().copied().collect() } else { rows.clone() };
+        for row in order {
+            let adv = |p: &MockProver<F>, c: usize, r: usize| match p.advice()[c][r] {
+                CellValue::Assigned(v) => v,
+                _ => F::ZERO,
+            };
+            let (qn, mab, mac, k0) = (fx(0, row), fx(1, row), fx(2, row), fx(3, row));
+            let cs: Vec<F> = (0..5).map(|i| fx(4 + i, row)).collect();
+            let a: Vec<F> = (0..5).map(|i| adv(prover, i, row)).collect();
+            let next0 = adv(prover, 0, row + 1);
+            let target = if cs[4] == -F::ONE {
+                Some(4usize)
+            } else if cs[0] == -F::ONE && mab == F::ZERO && mac == F::ZERO {
+                Some(0usize)
+            } else {
+                None
+            };
+            let Some(t) = target else { continue };
+            let mut v = k0 + qn * next0 + mab * a[0] * a[1] + mac * a[0] * a[2];
+            for i in 0..5 {
+                if i != t {
+                    v += cs[i] * a[i];
+                }
+            }
+            if v == a[t] || frozen.contains(&(t, row)) {
+                continue;
+            }
+            let cl = classes.class_of(t, row);
+            let ok = cl.iter().all(|(key, r)| {
+                key.starts_with('a') && canon.owner.get(&(key.clone(), *r)).map(|x| x.0 >= first_region).unwrap_or(false)
+            });
+            if !ok {
+                continue;
+            }
+            for (key, r) in cl {
+                let c: usize = key[1..].parse().unwrap();
+                if frozen.contains(&(c, r)) {
+                    continue;
+                }
+                saved.push(((c, r), prover.advice()[c][r]));
+                prover.verif_advice_mut()[c][r] = CellValue::Assigned(v);
+            }
+        }
+    }
+    saved
+}
+
 /// Pairs of cells inside one region of the operation under test, each written together with
 /// its copy class, small fault set on both (search tier): finds forgeries that need a hint and
 /// the value it justifies to move together (e.g. `aux` and `res` of the equality tests).
@@ -566,8 +643,18 @@ pub fn pair_search(ctx: &mut Ctx, case: &Case, rec: &Rec, honest: MockRun, budge
                         for ((c, r), v) in &all {
                             prover.verif_advice_mut()[*c][*r] = CellValue::Assigned(*v);
                         }
-                        let verdict = catch(|| prover.verify().is_ok()).unwrap_or(false);
+                        let mut verdict = catch(|| prover.verify().is_ok()).unwrap_or(false);
                         done += 1;
+                        let mut repaired = vec![];
+                        if !verdict {
+                            // follow the protocol downstream of the two faulted cells
+                            let frozen: Vec<(usize, usize)> = all.iter().map(|(c, _)| *c).collect();
+                            repaired = repair(&mut prover, rec, &mut classes, first_region, &frozen);
+                            if !repaired.is_empty() {
+                                verdict = catch(|| prover.verify().is_ok()).unwrap_or(false);
+                                ctx.count(&format!("pair+repair:{}", if verdict { "accepted" } else { "rejected" }));
+                            }
+                        }
                         ctx.count(&format!("pair:{}", if verdict { "accepted" } else { "rejected" }));
                         if verdict {
                             let table_vals: Vec<Option<F>> = var_cells
@@ -595,6 +682,9 @@ pub fn pair_search(ctx: &mut Ctx, case: &Case, rec: &Rec, honest: MockRun, budge
                                            "changed_vars": changed, "why": why}),
                                 );
                             }
+                        }
+                        for ((c, r), sv) in repaired.iter().rev() {
+                            prover.verif_advice_mut()[*c][*r] = *sv;
                         }
                         for (((c, r), _), sv) in all.iter().zip(saved) {
                             prover.verif_advice_mut()[*c][*r] = sv;
@@ -699,14 +789,14 @@ pub fn run(ctx: &mut Ctx) {
         ctx.case("optok", true, &format!("optok {} {}", p.nr_cols, p.max_bit_len), "1");
     }
     let cases = gen::cases(ctx);
-    let budget = if ctx.quick() { 6 } else if ctx.thorough() { 40 } else { 200 };
+    let budget = if ctx.quick() { 6 } else if ctx.thorough() { 14 } else { 24 };
     for case in &cases {
         let Some((rec, _out)) = run_case(ctx, case, true) else { continue };
         let Some(honest) = honest_accept(ctx, case, &rec) else { continue };
         tamper_case(ctx, case, &rec, honest, budget);
         if !ctx.quick() {
             if let Some(h2) = honest_accept(ctx, case, &rec) {
-                pair_search(ctx, case, &rec, h2, if ctx.search() { 4000 } else { 300 });
+                pair_search(ctx, case, &rec, h2, if ctx.search() { 150 } else { 60 });
             }
         }
     }
